@@ -500,8 +500,9 @@ impl DeviceControl for ControlHandle {
                     return Err(zip_err("more than one files in zipped GenApi XML"));
                 }
                 let mut file = unwrap_or_log!(zip.by_index(0).map_err(zip_err));
-                let file_size: usize = unwrap_or_log!(file.size().try_into());
-                let mut xml = Vec::with_capacity(file_size);
+                // The size advertised in the zip directory comes from the device and can't be
+                // trusted, so the buffer is not preallocated from it.
+                let mut xml = Vec::new();
                 unwrap_or_log!(file.read_to_end(&mut xml).map_err(zip_err));
                 Ok(String::from_utf8_lossy(&xml).into())
             }
